@@ -24,10 +24,11 @@
 //! writes `#<sim.time>` and then every variable of the hierarchy (every array
 //! element) read from the variable storage; the testbench calls
 //! `dump_variables()` once more after the clock variable went low.  Nothing
-//! runs between that call and the harness' own snapshot, which reads the same
-//! storage bytes *by itself* (payload bytes, then mask bytes, little endian —
-//! not through `read_native_value`) and cross-checks them with
-//! `Simulator::get_var` for every variable that API can address.
+//! but `ensure_comb_updated()` (what `get_var` does before it reads; a no-op
+//! right after a dump) runs between that call and the harness' own snapshot,
+//! which reads the same storage bytes *by itself* (payload bytes, then mask
+//! bytes, little endian — not through `read_native_value`) and cross-checks
+//! them with `Simulator::get_var` for every variable that API can address.
 //!
 //! Oracle, for the VCD (parsed by the parser below) and the FST (read with the
 //! `fst-reader` crate, which shares no code with the `fst-writer` crate the
@@ -406,10 +407,12 @@ fn value_of(payload: &BigUint, mask: &BigUint, width: usize) -> Value {
 }
 
 fn snapshot(sim: &mut Simulator, held: &[Held], four: bool, has_dump: bool, out: &mut RunOut) -> Result<(), String> {
-    if !has_dump {
-        // what `get_var` does before it reads; with a dumper the dump has just settled
-        sim.ensure_comb_updated();
-    }
+    // "the value the simulator holds" is what `get_var` returns, and `get_var`
+    // settles the combinational logic first.  With a dumper this is a no-op when
+    // the dump was taken where simulator.rs takes it (dump_variables settles,
+    // then writes); a dump taken earlier or unsettled then differs from the snapshot.
+    let _ = has_dump;
+    sim.ensure_comb_updated();
     let row: Vec<String> = held.iter().map(|h| read_held(h, four)).collect();
     // the API's view of the same storage
     for (h, bits) in held.iter().zip(&row) {
@@ -1032,6 +1035,9 @@ fn evaluate(gen_classes: &[String], text: &str, ws: &WStim, config: &Config, pro
     let vcd_text = String::from_utf8_lossy(&buf.lock().unwrap()).into_owned();
     let vcd_run = match vcd_run {
         Ok(r) => r,
+        Err(e) if e.starts_with("get_var(") => {
+            return Outcome::fail("wave:get_var-differs-from-storage", format!("[{label}] with the VCD dumper: {e}\n{text}"), input(json!(e)));
+        }
         Err(e) => {
             let msg: String = e.lines().next().unwrap_or("").chars().filter(|c| !c.is_ascii_digit()).take(60).collect();
             return Outcome::fail(format!("wave:vcd:run-fails-with-a-dumper:{msg}"), format!("[{label}] the run succeeds without a dumper and fails with the VCD dumper: {e}\n{text}"), input(json!(e)));
@@ -1050,6 +1056,9 @@ fn evaluate(gen_classes: &[String], text: &str, ws: &WStim, config: &Config, pro
     let fst_run = guarded(|| drive(&a, config, ws, proto, attach_late, Some(WaveDumper::new_fst(&fst_path.to_string_lossy()))));
     let fst_run = match fst_run {
         Ok(r) => r,
+        Err(e) if e.starts_with("get_var(") => {
+            return Outcome::fail("wave:get_var-differs-from-storage", format!("[{label}] with the FST dumper: {e}\n{text}"), input(json!(e)));
+        }
         Err(e) => {
             let msg: String = e.lines().next().unwrap_or("").chars().filter(|c| !c.is_ascii_digit()).take(60).collect();
             return Outcome::fail(format!("wave:fst:run-fails-with-a-dumper:{msg}"), format!("[{label}] the run succeeds without a dumper and fails with the FST dumper: {e}\n{text}"), input(json!(e)));
